@@ -308,13 +308,14 @@ Qed.
 Lemma try_reserve_refines (s : cpool) sp ns cap (s1 : cpool) evs :
   CPR s sp -> 0 <= cap -> cc_try_reserve _ gns gstep gusable s ns cap = Some (s1, evs) ->
   exists sp1, acc_evs sp evs = Some sp1 /\ CPR s1 sp1 /\ existsb is_up evs = false /\
-              cc_fence _ s1 = cc_fence _ s /\ cc_max _ s1 = cc_max _ s /\ length (cc_lists _ s1) = length (cc_lists _ s).
+              cc_fence _ s1 = cc_fence _ s /\ cc_max _ s1 = cc_max _ s /\ length (cc_lists _ s1) = length (cc_lists _ s) /\
+              a_held sp1 = a_held sp /\ cc_ar _ s1 = cc_ar _ s.
 Proof.
   intros Hcpr Hcap Hr. unfold cc_try_reserve in Hr.
   destruct (fs_alloc (cc_fence _ s) (cc_top _ s) (cc_end _ s) cap maxalZ) as [[m top']|] eqn:Hfs.
   - destruct (fs_reserved _ _ _ _ _ Hcpr Hcap Hfs) as [H1 H2].
     destruct (insert_refines _ _ _ _ _ _ _ H1 H2 Hr) as (sp1 & Ha & Hc1 & Hh & Har & Htop & Hfe & Hmx & Hev & Hlen).
-    exists sp1. cbn [cc_with cc_fence cc_max cc_lists] in *. split; [exact Ha|]. split; [exact Hc1|]. split; [rewrite Hev; reflexivity|]. repeat split; assumption.
+    exists sp1. cbn [cc_with cc_fence cc_max cc_lists cc_ar] in *. split; [exact Ha|]. split; [exact Hc1|]. split; [rewrite Hev; reflexivity|]. repeat split; assumption.
   - destruct (insert_rest_refines _ _ _ _ _ Hcpr Hr) as (sp1 & Ha & Hc1 & Hh & Har & Hfe & Hmx & Hup & Hlen).
     exists sp1. split; [exact Ha|]. split; [exact Hc1|]. split; [exact Hup|]. repeat split; assumption.
 Qed.
@@ -423,24 +424,32 @@ Proof.
   set (ns := bkt size) in *.
   destruct (cc_nfree _ gns gfree s ns) as [n|] eqn:Hn; [|discriminate]. destruct (nfree_rel _ _ _ _ Hcpr Hn) as (l0 & Hf0 & En & Hns).
   assert (Hsl : slots_needed ns size = 1) by (unfold slots_needed; destruct (Z.leb_spec size ns); [reflexivity|lia]).
+  assert (Hfin : forall (s1 : cpool) sp1 ev1 x, CPR s1 sp1 -> acc_evs sp ev1 = Some sp1 -> ((0 <? l_nfree l0) && existsb is_grow ev1 = false) ->
+            cc_take_node _ gns gstep s1 ns = Some (s', x) -> exists sp', acc_op sp (OAlloc false false ns size) ev1 (ObsOk x) = Some sp' /\ CPR s' sp').
+  { intros s1 sp1 ev1 x Hc1 Ha Hcond Ht. destruct (take_node_refines _ _ _ _ _ Hc1 Ht) as (l & l' & Hfl & T & Hcr).
+    assert (Hacc : acc_op sp (OAlloc false false ns size) ev1 (ObsOk x) = Some (with_list sp1 l')).
+    { apply (acc_alloc_ok sp false false ns size ev1 sp1 l0 l l' x Hf0); [cbn [negb andb orb]; rewrite Hcond; reflexivity|exact Ha|exact Hfl|rewrite Hsl; exact T]. }
+    eexists. split; [exact Hacc|]. exact (cpr_intro _ _ _ _ _ _ Hinv Hacc Hcr). }
   destruct (Z.ltb_spec 0 n) as [Hpos|Hzero].
   - destruct (cc_take_node _ gns gstep s ns) as [[s1 x]|] eqn:Ht; [|discriminate]. inversion Hst; subst s1 r evs; clear Hst.
-    destruct (take_node_refines _ _ _ _ _ Hcpr Ht) as (l & l' & Hfl & T & Hcr).
-    assert (Hacc : acc_op sp (OAlloc false false ns size) [] (ObsOk x) = Some (with_list sp l')).
-    { apply (acc_alloc_ok sp false false ns size [] sp l0 l l' x Hf0); [cbn; rewrite andb_false_r; reflexivity|reflexivity|exact Hfl|rewrite Hsl; exact T]. }
-    eexists. split; [exact Hacc|]. exact (cpr_intro _ _ _ _ _ _ Hinv Hacc Hcr).
+    apply (Hfin s sp [] x Hcpr eq_refl); [cbn; apply andb_false_r|exact Ht].
   - assert (Hn0 : (0 <? l_nfree l0) = false) by (apply Z.ltb_ge; lia).
-    destruct (cc_grow _ gns gstep gusable s ns (cc_defcap _ s) answer) as [[[s1 ok] ev1]|] eqn:Hgr; [|discriminate].
-    destruct (grow_refines _ _ _ _ _ _ _ _ Hcpr (defcap_nonneg _ _ Hcpr) Hwb Hgr) as (sp1 & Ha & Hc1 & _).
-    destruct ok.
-    + destruct (cc_take_node _ gns gstep s1 ns) as [[s2 x]|] eqn:Ht; [|discriminate]. inversion Hst; subst s2 r evs; clear Hst.
-      destruct (take_node_refines _ _ _ _ _ Hc1 Ht) as (l & l' & Hfl & T & Hcr).
-      assert (Hacc : acc_op sp (OAlloc false false ns size) ev1 (ObsOk x) = Some (with_list sp1 l')).
-      { apply (acc_alloc_ok sp false false ns size ev1 sp1 l0 l l' x Hf0); [rewrite Hn0; reflexivity|exact Ha|exact Hfl|rewrite Hsl; exact T]. }
-      eexists. split; [exact Hacc|]. exact (cpr_intro _ _ _ _ _ _ Hinv Hacc Hcr).
-    + inversion Hst; subst s1 r evs; clear Hst.
-      assert (Hacc : acc_op sp (OAlloc false false ns size) ev1 ObsThrow = Some sp1) by (apply (acc_alloc_throw sp false ns size ev1 sp1 l0 Hf0); [rewrite Hn0; reflexivity|exact Ha]).
-      exists sp1. split; [exact Hacc|exact Hc1].
+    destruct (cc_try_reserve _ gns gstep gusable s ns (cc_defcap _ s)) as [[s0 ev0]|] eqn:Htr; [|discriminate].
+    destruct (try_reserve_refines _ _ _ _ _ _ Hcpr (defcap_nonneg _ _ Hcpr) Htr) as (sp0 & Ha0 & Hc0 & Hup0 & _ & _ & _ & Hheld0 & Har0).
+    destruct (cc_nfree _ gns gfree s0 ns) as [n0|] eqn:Hn0'; [|discriminate].
+    destruct (0 <? n0).
+    + destruct (cc_take_node _ gns gstep s0 ns) as [[s1 x]|] eqn:Ht; [|discriminate]. inversion Hst; subst s1 r evs; clear Hst.
+      apply (Hfin s0 sp0 ev0 x Hc0 Ha0); [rewrite Hn0; reflexivity|exact Ht].
+    + assert (Hwb0 : forall addr, answer = Some addr -> CWB sp0 addr (ar_next (cc_ar _ s0))) by (intros addr E; unfold CWB; rewrite Hheld0, Har0; apply Hwb; exact E).
+      destruct (cc_grow _ gns gstep gusable s0 ns (cc_defcap _ s0) answer) as [[[s1 ok] ev1]|] eqn:Hgr; [|discriminate].
+      destruct (grow_refines _ _ _ _ _ _ _ _ Hc0 (defcap_nonneg _ _ Hc0) Hwb0 Hgr) as (sp1 & Ha & Hc1 & _).
+      assert (Hev : acc_evs sp (ev0 ++ ev1) = Some sp1) by (rewrite acc_evs_app, Ha0; exact Ha).
+      destruct ok.
+      * destruct (cc_take_node _ gns gstep s1 ns) as [[s2 x]|] eqn:Ht; [|discriminate]. inversion Hst; subst s2 r evs; clear Hst.
+        apply (Hfin s1 sp1 (ev0 ++ ev1) x Hc1 Hev); [rewrite Hn0; reflexivity|exact Ht].
+      * inversion Hst; subst s1 r evs; clear Hst.
+        assert (Hacc : acc_op sp (OAlloc false false ns size) (ev0 ++ ev1) ObsThrow = Some sp1) by (apply (acc_alloc_throw sp false ns size (ev0 ++ ev1) sp1 l0 Hf0); [rewrite Hn0; reflexivity|exact Hev]).
+        exists sp1. split; [exact Hacc|exact Hc1].
 Qed.
 
 Theorem try_alloc_node_refines (s : cpool) sp size (s' : cpool) r evs : CPR s sp ->
@@ -574,6 +583,19 @@ Proof.
     destruct (cc_take_array _ gns gfree gstep s1 ns bytes) as [[s2 res]|] eqn:Ht; [|discriminate].
     assert (E : s2 = s' /\ evs = ev1 /\ r = match res with Some x => ObsOk x | None => ObsNull end) by (destruct res; inversion Hst; repeat split).
     destruct E as (-> & -> & Er). apply (Hfin s1 sp1 ev1 res Hc1 Ha Hup Ht Er).
+Qed.
+
+(* reserve(): its events are accepted and the relation holds afterwards; the reserved memory is the pool's *)
+Theorem reserve_op_refines (s : cpool) sp size cap answer (s2 : cpool) ok evs : CPR s sp -> 0 <= cap ->
+  (forall addr, answer = Some addr -> CWB sp addr (ar_next (cc_ar _ s))) ->
+  cc_reserve_op _ gns gstep bkt gusable s size cap answer = Some (s2, ok, evs) ->
+  exists sp2, acc_evs sp evs = Some sp2 /\ CPR s2 sp2 /\ (ok = true -> exists m, In (EIns (bkt size) m cap) evs).
+Proof.
+  intros Hcpr Hcap Hwb Hr. unfold cc_reserve_op in Hr. destruct (_ || _); [discriminate|].
+  destruct (grow_refines _ _ _ _ _ _ _ _ Hcpr Hcap Hwb Hr) as (sp2 & Ha & Hc2 & _). exists sp2. split; [exact Ha|]. split; [exact Hc2|].
+  intros ->. unfold cc_grow in Hr. destruct (cc_reserve _ gns gstep gusable s (bkt size) cap answer) as [[[s1 [m|]] ev1]|]; try discriminate.
+  destruct (cc_insert _ gns gstep gusable s1 (bkt size) m cap) as [[sb ev2]|] eqn:Hins; [|discriminate]. inversion Hr; subst.
+  exists m. apply in_or_app. right. unfold cc_insert in Hins. destruct (_ <=? _); [|discriminate]. destruct (cc_list_step _ _ _ _ _ _) as [[? ?]|]; [|discriminate]. inversion Hins. left. reflexivity.
 Qed.
 
 (* ---------- steps and histories ---------- *)
@@ -767,7 +789,8 @@ Proof. intros Hinv x Hx. pose proof (i_pos _ Hinv) as H. rewrite Forall_forall i
 Lemma insert_progress (s : cpool) sp ns m size g : CPR s sp -> Reserved s sp m size -> c_find ns (cc_lists _ s) = Some g ->
   ns <= gusable ns size ->
   exists s' evs, cc_insert _ gns gstep gusable s ns m size = Some (s', evs) /\
-    exists n', cc_nfree _ gns gfree s' ns = Some n' /\ 0 < n'.
+    (exists n', cc_nfree _ gns gfree s' ns = Some n' /\ 0 < n') /\
+    (exists g2 rs l, GR g {| us_rs := rs; us_l := l |} /\ gstep g (UIns m size) = Some (g2, None) /\ c_find ns (cc_lists _ s') = Some g2).
 Proof.
   intros Hcpr Hres Hf Hus. pose proof Hcpr as (Hinv & HL & _). destruct (find_rel _ _ _ _ _ HL Hf) as (l & Hfl & Hgr & Eg).
   pose proof (GR_pos _ _ Hgr) as Hpos. destruct (gusable_nodes ns m size ltac:(lia) Hus) as [Hnodes Hsize].
@@ -777,7 +800,8 @@ Proof.
   { intros x Hx. split; [apply (ranges_pos _ Hinv); exact Hx|]. destruct (Hdis x Hx); [left; assumption|right; lia]. }
   assert (Hins : cc_insert _ gns gstep gusable s ns m size = Some (cc_with _ s (cc_ar _ s) (cc_top _ s) (c_set g' (cc_lists _ s)), [EIns ns m size])).
   { unfold cc_insert. destruct (Z.leb_spec ns (gusable ns size)); [|lia]. unfold cc_list_step. rewrite Hf, Hs. reflexivity. }
-  eexists _, _. split; [exact Hins|].
+  eexists _, _. split; [exact Hins|]. split.
+  2:{ exists g', (a_ranges sp), l. split; [exact Hgr|]. split; [exact Hs|]. cbn [cc_with cc_lists]. apply (c_find_set _ _ _ _ Hf (eq_trans (gstep_ns _ _ _ _ Hs) Eg)). }
   pose proof (nodup_gns _ _ Hcpr) as Hnd.
   destruct (list_step_rel _ _ _ _ _ _ _ _ HL Hnd Hf Hs) as (l1 & u' & Hfl1 & Hu & _ & _ & Hk & Enf & Enf' & _).
   rewrite Hfl in Hfl1. inversion Hfl1; subst l1. cbn [us_step us_l us_rs] in Hu. inversion Hu; subst u'. cbn [us_l l_nfree] in Enf'.
@@ -925,19 +949,23 @@ Proof.
   split; [exact H5|]. rewrite Ek, En. destruct (ar_kind (cc_ar _ s)); [|contradiction|]; intros b0 rest0 E0; rewrite Hu in E0; inversion E0; subst b0 rest0; cbn [snd]; lia.
 Qed.
 
-(* allocate_node's growth -- reserve_memory(pool, def_capacity()) and insert -- always comes back, and with a node when it succeeds *)
-Lemma grow_progress (s : cpool) sp ns g answer : CPR s sp -> Ext s -> c_find ns (cc_lists _ s) = Some g ->
+(* reserve_memory(pool, capacity) and insert always come back -- with a node when they succeed -- for any capacity that yields a node
+   and fits into a fresh block of the next size *)
+Lemma grow_progress_gen (s : cpool) sp ns g cap answer : CPR s sp -> Ext s -> c_find ns (cc_lists _ s) = Some g ->
   (forall addr, answer = Some addr -> CWB sp addr (ar_next (cc_ar _ s))) -> ar_next (cc_ar _ s) < 2^64 ->
-  exists s2 ok evs, cc_grow _ gns gstep gusable s ns (cc_defcap _ s) answer = Some (s2, ok, evs) /\ Ext s2 /\
-    (ok = true -> exists n', cc_nfree _ gns gfree s2 ns = Some n' /\ 0 < n').
+  0 < cap -> ns <= gusable ns cap ->
+  (ar_kind (cc_ar _ s) <> AFixed -> forall x, x mod 16 = 0 -> 0 < x -> fs_alloc (cc_fence _ s) (x + 16) (x + ar_next (cc_ar _ s)) cap 16 <> None) ->
+  exists s2 ok evs, cc_grow _ gns gstep gusable s ns cap answer = Some (s2, ok, evs) /\ Ext s2 /\
+    (ok = true -> (exists n', cc_nfree _ gns gfree s2 ns = Some n' /\ 0 < n') /\
+                  (exists g1 g2 m rs l, GR g1 {| us_rs := rs; us_l := l |} /\ gns g1 = ns /\ gstep g1 (UIns m cap) = Some (g2, None) /\ c_find ns (cc_lists _ s2) = Some g2)).
 Proof.
-  intros Hcpr Hext Hf Hwb Hn64. pose proof (ext_list_usable _ _ _ _ Hcpr Hext Hf) as Hus. pose proof (ext_defcap_pos _ Hext) as Hdpos.
-  destruct chdr_eq as (Eh & Eh16 & Emax). set (cap := cc_defcap _ s) in *.
+  intros Hcpr Hext Hf Hwb Hn64 Hdpos Hus Hfitx.
+  destruct chdr_eq as (Eh & Eh16 & Emax).
   unfold cc_grow, cc_reserve.
   destruct (fs_alloc (cc_fence _ s) (cc_top _ s) (cc_end _ s) cap maxalZ) as [[m top']|] eqn:Hfs.
   - destruct (fs_reserved _ _ _ _ _ Hcpr (Z.lt_le_incl _ _ Hdpos) Hfs) as [H1 H2].
-    destruct (insert_progress _ sp ns m cap g H1 H2 Hf Hus) as (s2 & ev2 & Hins & Hn). rewrite Hins.
-    eexists _, _, _. split; [reflexivity|]. split; [|intros _; exact Hn].
+    destruct (insert_progress _ sp ns m cap g H1 H2 Hf Hus) as (s2 & ev2 & Hins & Hn & (g2 & rs & l & Hg1 & Hg2 & Hg3)). rewrite Hins.
+    eexists _, _, _. split; [reflexivity|]. split; [|intros _; split; [exact Hn|exists g, g2, m, rs, l; split; [exact Hg1|]; split; [exact (proj2 (c_find_in _ _ _ Hf))|]; split; assumption]].
     destruct (insert_keys _ _ _ _ _ _ Hins) as (Hk & Ha & Hfe & Hm & _). apply (ext_same s); [exact Hext|exact Hm|exact Hfe|exact Ha|exact Hk].
   - destruct (insert_rest_progress _ _ _ _ Hcpr Hf) as (sa & ev1 & Hir & Hka). rewrite Hir.
     destruct (insert_rest_refines _ _ _ _ _ Hcpr Hir) as (spa & Ha & Hca & Hha & Hara & Hfa & Hma & _ & Hla).
@@ -960,9 +988,10 @@ Proof.
     assert (Hle : snd b <= ar_next (cc_ar _ s)).
     { rewrite Hara in Hfix. destruct (ar_kind (cc_ar _ s)) eqn:Hk; [apply (Hnext b rest Hbu)|exfalso; apply (Hfix eq_refl); exact Hnext|apply (Hnext b rest Hbu)]. }
     assert (Hfence : 0 <= cc_fence _ s) by apply Hcpr.
-    pose proof (defcap_fits s b rest x (ar_next (cc_ar _ s)) Hbu Hfence Hlen Hdpos Hle Hw3 Hw1) as Hfit.
+    assert (Hnf : ar_kind (cc_ar _ s) <> AFixed) by (intros E; rewrite Hara in Hfix; rewrite E in Hnext; exact (Hfix E Hnext)).
+    pose proof (Hfitx Hnf x Hw3 Hw1) as Hfit.
     assert (Eend : cc_end _ sb = x + ar_next (cc_ar _ s)) by (unfold cc_end; rewrite Hu, Hara; reflexivity).
-    rewrite Hf2, Hfa, Htop, Eend, Emax. fold cap in Hfit.
+    rewrite Hf2, Hfa, Htop, Eend, Emax.
     destruct (fs_alloc (cc_fence _ s) (x + 16) (x + ar_next (cc_ar _ s)) cap 16) as [[m top']|] eqn:Hfs2; [|contradiction].
     assert (Hfs2' : fs_alloc (cc_fence _ sb) (cc_top _ sb) (cc_end _ sb) cap maxalZ = Some (m, top')) by (rewrite Hf2, Hfa, Htop, Eend, Emax; exact Hfs2).
     destruct (fs_reserved _ _ _ _ _ Hcb (Z.lt_le_incl _ _ Hdpos) Hfs2') as [H1 H2].
@@ -973,12 +1002,50 @@ Proof.
     assert (Hextb : Ext sb).
     { apply (ext_new_block sa sb x Hexta); try assumption; [rewrite Hl2; reflexivity|exists b, rest; rewrite Hara; exact Hbu|rewrite Hara; lia|rewrite Hfa; exact Hfence]. }
     assert (Husb : ns <= gusable ns cap) by exact Hus.
-    destruct (insert_progress _ spb ns m cap gb H1 H2 Hfb' Husb) as (s2 & ev3 & Hins & Hn). rewrite Hins.
-    eexists _, _, _. split; [reflexivity|]. split; [|intros _; exact Hn].
+    destruct (insert_progress _ spb ns m cap gb H1 H2 Hfb' Husb) as (s2 & ev3 & Hins & Hn & (g2 & rs & l & Hg1 & Hg2 & Hg3)). rewrite Hins.
+    eexists _, _, _. split; [reflexivity|]. split; [|intros _; split; [exact Hn|exists gb, g2, m, rs, l; split; [exact Hg1|]; split; [exact (proj2 (c_find_in _ _ _ Hfb'))|]; split; assumption]].
     destruct (insert_keys _ _ _ _ _ _ Hins) as (Hk & Ha2 & Hfe & Hm & _). apply (ext_same sb); [exact Hextb|exact Hm|exact Hfe|exact Ha2|exact Hk].
 Qed.
 
+
+(* allocate_node's growth -- reserve_memory(pool, def_capacity()) and insert *)
+Lemma grow_progress (s : cpool) sp ns g answer : CPR s sp -> Ext s -> c_find ns (cc_lists _ s) = Some g ->
+  (forall addr, answer = Some addr -> CWB sp addr (ar_next (cc_ar _ s))) -> ar_next (cc_ar _ s) < 2^64 ->
+  exists s2 ok evs, cc_grow _ gns gstep gusable s ns (cc_defcap _ s) answer = Some (s2, ok, evs) /\ Ext s2 /\
+    (ok = true -> exists n', cc_nfree _ gns gfree s2 ns = Some n' /\ 0 < n').
+Proof.
+  intros Hcpr Hext Hf Hwb Hn64. pose proof (ext_list_usable _ _ _ _ Hcpr Hext Hf) as Hus. pose proof (ext_defcap_pos _ Hext) as Hdpos.
+  assert (Hfr : Fresh s sp) by apply Hcpr. destruct Hfr as (b & rest & Hbu & _ & _).
+  assert (Hfence : 0 <= cc_fence _ s) by apply Hcpr.
+  destruct (grow_progress_gen s sp ns g (cc_defcap _ s) answer Hcpr Hext Hf Hwb Hn64 Hdpos Hus) as (s2 & ok & evs & H1 & H2 & H3).
+  - intros Hnf x Hx Hx0. pose proof Hext as (_ & _ & _ & _ & Hlen & Hnext).
+    destruct (ar_kind (cc_ar _ s)) eqn:Hk; [|contradiction|]; apply (defcap_fits s b rest x _ Hbu Hfence Hlen Hdpos (Hnext b rest Hbu) Hx Hx0).
+  - exists s2, ok, evs. split; [exact H1|]. split; [exact H2|]. intros E. exact (proj1 (H3 E)).
+Qed.
+
 (* ---------- node requests are always described ---------- *)
+Lemma try_reserve_progress (s : cpool) sp ns g : CPR s sp -> Ext s -> c_find ns (cc_lists _ s) = Some g ->
+  exists s1 ev1, cc_try_reserve _ gns gstep gusable s ns (cc_defcap _ s) = Some (s1, ev1) /\ map gns (cc_lists _ s1) = map gns (cc_lists _ s) /\
+                 cc_ar _ s1 = cc_ar _ s /\ cc_fence _ s1 = cc_fence _ s /\ cc_max _ s1 = cc_max _ s.
+Proof.
+  intros Hcpr Hext Hf. pose proof (ext_list_usable _ _ _ _ Hcpr Hext Hf) as Hus. pose proof (ext_defcap_pos _ Hext) as Hdpos.
+  unfold cc_try_reserve. destruct (fs_alloc (cc_fence _ s) (cc_top _ s) (cc_end _ s) (cc_defcap _ s) maxalZ) as [[m top']|] eqn:Hfs.
+  - destruct (fs_reserved _ _ _ _ _ Hcpr (Z.lt_le_incl _ _ Hdpos) Hfs) as [H1 H2].
+    destruct (insert_progress _ sp ns m _ g H1 H2 Hf Hus) as (s1 & ev1 & Hins & _). exists s1, ev1. split; [exact Hins|].
+    destruct (insert_keys _ _ _ _ _ _ Hins) as (Hk & Ha & Hfe & Hm & _). cbn [cc_with cc_lists cc_ar cc_fence cc_max] in *. repeat split; assumption.
+  - destruct (insert_rest_progress _ _ _ _ Hcpr Hf) as (s1 & ev1 & Hir & Hk). exists s1, ev1. split; [exact Hir|]. split; [exact Hk|].
+    destruct (insert_rest_refines _ _ _ _ _ Hcpr Hir) as (sp1 & _ & _ & _ & Ha & Hfe & Hm & _). repeat split; assumption.
+Qed.
+
+Lemma take_node_ext (s1 : cpool) sp1 ns g1 : CPR s1 sp1 -> Ext s1 -> c_find ns (cc_lists _ s1) = Some g1 -> 0 < gfree g1 ->
+  exists s' x, cc_take_node _ gns gstep s1 ns = Some (s', x) /\ Ext s'.
+Proof.
+  intros Hc1 He1 Hf1 Hp1. assert (Hn : cc_nfree _ gns gfree s1 ns = Some (gfree g1)) by (unfold cc_nfree; rewrite Hf1; reflexivity).
+  destruct (take_progress _ _ _ _ Hc1 Hn Hp1) as (s' & x & Ht). exists s', x. split; [exact Ht|].
+  unfold cc_take_node, cc_list_step in Ht. rewrite Hf1 in Ht. destruct (gstep g1 UAlloc) as [[g' [x'|]]|] eqn:Hs; inversion Ht; subst s' x'.
+  apply (ext_same s1); try reflexivity; [exact He1|]. cbn [cc_with cc_lists]. apply (c_set_keys g' _ g1). rewrite (gstep_ns _ _ _ _ Hs). destruct (c_find_in _ _ _ Hf1) as [_ E]. rewrite E. exact Hf1.
+Qed.
+
 Theorem alloc_node_progress (s : cpool) sp size answer : CPR s sp -> Ext s -> 0 < size <= cc_max _ s ->
   (forall addr, answer = Some addr -> CWB sp addr (ar_next (cc_ar _ s))) -> ar_next (cc_ar _ s) < 2^64 ->
   exists s' r evs, cc_alloc_node _ gns gfree gstep bkt gusable s size answer = Some (s', r, evs) /\ Ext s'.
@@ -989,18 +1056,22 @@ Proof.
   { apply orb_false_iff. split; [apply orb_false_iff; split|]; [apply Z.leb_gt|apply Z.ltb_ge|apply Z.ltb_ge]; lia. }
   rewrite Hg. set (ns := bkt size) in *. destruct (c_find ns (cc_lists _ s)) as [g|] eqn:Hf; [|contradiction].
   unfold cc_nfree at 1. rewrite Hf. destruct (Z.ltb_spec 0 (gfree g)) as [Hpos|Hzero].
-  - assert (Hn : cc_nfree _ gns gfree s ns = Some (gfree g)) by (unfold cc_nfree; rewrite Hf; reflexivity).
-    destruct (take_progress _ _ _ _ Hcpr Hn Hpos) as (s' & x & Ht). rewrite Ht. eexists _, _, _. split; [reflexivity|].
-    unfold cc_take_node, cc_list_step in Ht. rewrite Hf in Ht. destruct (gstep g UAlloc) as [[g' [x'|]]|] eqn:Hs; inversion Ht; subst s' x'.
-    apply (ext_same s); try reflexivity; [exact Hext|]. cbn [cc_with cc_lists]. apply (c_set_keys g' _ g). rewrite (gstep_ns _ _ _ _ Hs). destruct (c_find_in _ _ _ Hf) as [_ E]. rewrite E. exact Hf.
-  - destruct (grow_progress _ _ _ _ _ Hcpr Hext Hf Hwb Hn64) as (s2 & ok & evs & Hgr & Hext2 & Hnode). rewrite Hgr. destruct ok.
-    + destruct (Hnode eq_refl) as (n' & Hn' & Hpos').
-      destruct (grow_refines _ _ _ _ _ _ _ _ Hcpr (defcap_nonneg _ _ Hcpr) Hwb Hgr) as (sp2 & _ & Hc2 & _).
-      destruct (take_progress _ _ _ _ Hc2 Hn' Hpos') as (s' & x & Ht). rewrite Ht. eexists _, _, _. split; [reflexivity|].
-      unfold cc_nfree in Hn'. destruct (c_find ns (cc_lists _ s2)) as [g2|] eqn:Hf2; [|discriminate].
-      unfold cc_take_node, cc_list_step in Ht. rewrite Hf2 in Ht. destruct (gstep g2 UAlloc) as [[g' [x'|]]|] eqn:Hs; inversion Ht; subst s' x'.
-      apply (ext_same s2); try reflexivity; [exact Hext2|]. cbn [cc_with cc_lists]. apply (c_set_keys g' _ g2). rewrite (gstep_ns _ _ _ _ Hs). destruct (c_find_in _ _ _ Hf2) as [_ E]. rewrite E. exact Hf2.
-    + eexists _, _, _. split; [reflexivity|exact Hext2].
+  - destruct (take_node_ext s sp ns g Hcpr Hext Hf Hpos) as (s' & x & Ht & He). rewrite Ht. eexists _, _, _. split; [reflexivity|exact He].
+  - destruct (try_reserve_progress _ _ _ _ Hcpr Hext Hf) as (s0 & ev0 & Htr & Hk0 & Ha0 & Hfe0 & Hm0). rewrite Htr.
+    destruct (try_reserve_refines _ _ _ _ _ _ Hcpr (defcap_nonneg _ _ Hcpr) Htr) as (sp0 & _ & Hc0 & _ & _ & _ & _ & Hheld0 & _).
+    assert (He0 : Ext s0) by (apply (ext_same s); assumption).
+    destruct (c_find ns (cc_lists _ s0)) as [g0|] eqn:Hf0.
+    2:{ exfalso. assert (Hne : c_find ns (cc_lists _ s) <> None) by (rewrite Hf; discriminate). apply (proj2 (c_find_keys ns _ _ Hk0)) in Hne. contradiction. }
+    unfold cc_nfree at 1. rewrite Hf0. destruct (Z.ltb_spec 0 (gfree g0)) as [Hp0|Hz0].
+    + destruct (take_node_ext s0 sp0 ns g0 Hc0 He0 Hf0 Hp0) as (s' & x & Ht & He). rewrite Ht. eexists _, _, _. split; [reflexivity|exact He].
+    + assert (Hwb0 : forall addr, answer = Some addr -> CWB sp0 addr (ar_next (cc_ar _ s0))) by (intros addr E; unfold CWB; rewrite Hheld0, Ha0; apply Hwb; exact E).
+      assert (Hn640 : ar_next (cc_ar _ s0) < 2^64) by (rewrite Ha0; exact Hn64).
+      destruct (grow_progress _ _ _ _ _ Hc0 He0 Hf0 Hwb0 Hn640) as (s2 & ok & evs & Hgr & Hext2 & Hnode). rewrite Hgr. destruct ok.
+      * destruct (Hnode eq_refl) as (n' & Hn' & Hpos').
+        destruct (grow_refines _ _ _ _ _ _ _ _ Hc0 (defcap_nonneg _ _ Hc0) Hwb0 Hgr) as (sp2 & _ & Hc2 & _).
+        unfold cc_nfree in Hn'. destruct (c_find ns (cc_lists _ s2)) as [g2|] eqn:Hf2; [|discriminate]. inversion Hn'; subst n'.
+        destruct (take_node_ext s2 sp2 ns g2 Hc2 Hext2 Hf2 Hpos') as (s' & x & Ht & He). rewrite Ht. eexists _, _, _. split; [reflexivity|exact He].
+      * eexists _, _, _. split; [reflexivity|exact Hext2].
 Qed.
 
 Theorem try_alloc_node_progress (s : cpool) sp size : CPR s sp -> Ext s -> 0 < size <= cc_max _ s ->
@@ -1119,6 +1190,105 @@ Proof.
     destruct (Z.ltb_spec ov (bs - 16)); [|rewrite Zdiv_0_l; lia]. assert ((bs - 16 - ov) / n <= bs - 16 - ov) by (apply Z.div_le_upper_bound; nia). lia. }
   split; [exact Hb|]. split; [exact Hlen|].
   destruct k; [intros b rest E; inversion E; subst; cbn [snd]; lia|reflexivity|intros b rest E; inversion E; subst; cbn [snd]; lia].
+Qed.
+
+(* ---------- array requests are always described ---------- *)
+Hypothesis gprog_arr : forall g s bytes, GR g s -> gns g < bytes -> exists g' res, gstep g (UAllocArr bytes) = Some (g', res).
+Hypothesis gprog_arr_after_ins : forall g1 rs l g2 m cap bytes, GR g1 {| us_rs := rs; us_l := l |} -> gstep g1 (UIns m cap) = Some (g2, None) ->
+  gns g1 < bytes -> slots_needed (gns g1) bytes <= cap / gns g1 -> exists g' x, gstep g2 (UAllocArr bytes) = Some (g', Some x).
+Hypothesis gusable_mult : forall ns k, 0 < ns -> 1 <= k -> k * ns < 2^64 -> ns <= gusable ns (k * ns).
+
+Lemma list_step_keys (s : cpool) ns o (s' : cpool) res : cc_list_step _ gns gstep s ns o = Some (s', res) ->
+  map gns (cc_lists _ s') = map gns (cc_lists _ s) /\ cc_ar _ s' = cc_ar _ s /\ cc_fence _ s' = cc_fence _ s /\ cc_max _ s' = cc_max _ s.
+Proof.
+  unfold cc_list_step. destruct (c_find ns (cc_lists _ s)) as [g|] eqn:Hf; [|discriminate]. destruct (gstep g o) as [[g' r]|] eqn:Hs; [|discriminate].
+  intros H; inversion H; subst s' res. cbn [cc_with cc_lists cc_ar cc_fence cc_max]. split; [|repeat split].
+  apply (c_set_keys g' _ g). rewrite (gstep_ns _ _ _ _ Hs). destruct (c_find_in _ _ _ Hf) as [_ E]. rewrite E. exact Hf.
+Qed.
+
+Lemma take_array_progress (s : cpool) sp ns bytes g : CPR s sp -> Ext s -> c_find ns (cc_lists _ s) = Some g ->
+  exists s' res, cc_take_array _ gns gfree gstep s ns bytes = Some (s', res) /\ Ext s'.
+Proof.
+  intros Hcpr Hext Hf. unfold cc_take_array, cc_nfree. rewrite Hf. destruct (Z.eqb_spec (gfree g) 0) as [E0|E0]; [exists s, None; split; [reflexivity|exact Hext]|].
+  pose proof Hcpr as (Hinv & HL & _). destruct (find_rel _ _ _ _ _ HL Hf) as (l & Hfl & Hgr & Eg).
+  assert (Hpos : 0 < gfree g).
+  { destruct (GR_list _ _ Hgr) as (_ & _ & En). cbn in En. destruct (find_list_In _ _ _ Hfl) as [Hin _]. destruct (capacity_is_exact sp l Hinv Hin) as (_ & H0 & _). lia. }
+  assert (Hk : forall (s' : cpool) o r, cc_list_step _ gns gstep s ns o = Some (s', r) -> Ext s').
+  { intros s' o r H. destruct (list_step_keys _ _ _ _ _ H) as (H1 & H2 & H3 & H4). apply (ext_same s); assumption. }
+  destruct (Z.leb_spec bytes ns).
+  - assert (Hn : cc_nfree _ gns gfree s ns = Some (gfree g)) by (unfold cc_nfree; rewrite Hf; reflexivity).
+    destruct (take_progress _ _ _ _ Hcpr Hn Hpos) as (s' & x & Ht). rewrite Ht. exists s', (Some x). split; [reflexivity|].
+    unfold cc_take_node in Ht. destruct (cc_list_step _ gns gstep s ns UAlloc) as [[s1 [x1|]]|] eqn:Hls; inversion Ht; subst s1 x1. exact (Hk _ _ _ Hls).
+  - destruct (gprog_arr g _ bytes Hgr ltac:(lia)) as (g' & res & Hs).
+    assert (Hls : cc_list_step _ gns gstep s ns (UAllocArr bytes) = Some (cc_with _ s (cc_ar _ s) (cc_top _ s) (c_set g' (cc_lists _ s)), res)) by (unfold cc_list_step; rewrite Hf, Hs; reflexivity).
+    rewrite Hls. eexists _, _. split; [reflexivity|exact (Hk _ _ _ Hls)].
+Qed.
+
+Lemma roundup_facts bytes ns : 0 < ns -> 0 < bytes -> let c := (bytes + ns - 1) / ns * ns in bytes <= c <= bytes + ns - 1 /\ 1 <= (bytes + ns - 1) / ns /\ c / ns = (bytes + ns - 1) / ns.
+Proof.
+  intros Hns Hb. cbv zeta. pose proof (Z.div_mod (bytes + ns - 1) ns ltac:(lia)) as Hd. pose proof (Z.mod_pos_bound (bytes + ns - 1) ns Hns) as Hm.
+  set (q := (bytes + ns - 1) / ns) in *. split; [nia|]. split; [nia|]. apply Z.div_mul. lia.
+Qed.
+
+Definition array_answers_ok64 (s : cpool) (sp : ast) (size : Z) (answer1 answer2 : option Z) : Prop :=
+  (forall addr, answer1 = Some addr -> CWB sp addr (ar_next (cc_ar _ s))) /\ ar_next (cc_ar _ s) < 2^64 /\
+  (forall s1 ev1 sp1, cc_grow _ gns gstep gusable s (bkt size) (cc_defcap _ s) answer1 = Some (s1, true, ev1) -> acc_evs sp ev1 = Some sp1 ->
+     (forall addr, answer2 = Some addr -> CWB sp1 addr (ar_next (cc_ar _ s1))) /\ ar_next (cc_ar _ s1) < 2^64).
+
+Theorem alloc_array_progress (s : cpool) sp size bytes a1 a2 : CPR s sp -> Ext s -> 0 < size <= cc_max _ s -> size <= bytes ->
+  array_answers_ok64 s sp size a1 a2 ->
+  exists s' r evs, cc_alloc_array _ gns gfree gstep bkt gusable s size bytes a1 a2 = Some (s', r, evs) /\ Ext s'.
+Proof.
+  intros Hcpr Hext Hsize Hbytes (Hwb1 & Hn64 & Hwb2). pose proof Hext as (_ & _ & _ & H4 & _). destruct (H4 size Hsize) as [Hge Hfind].
+  unfold cc_alloc_array.
+  assert (Hg : (size <=? 0) || (cc_max _ s <? size) || (bkt size <? size) || (bytes <? size) = false).
+  { repeat (apply orb_false_iff; split); [apply Z.leb_gt|apply Z.ltb_ge|apply Z.ltb_ge|apply Z.ltb_ge]; lia. }
+  rewrite Hg. set (ns := bkt size) in *. destruct (c_find ns (cc_lists _ s)) as [g|] eqn:Hf; [|contradiction].
+  destruct (take_array_progress _ _ _ bytes _ Hcpr Hext Hf) as (s0 & res0 & Ht0 & He0). rewrite Ht0.
+  destruct res0 as [x|]; [eexists _, _, _; split; [reflexivity|exact He0]|]. clear Ht0 He0 s0.
+  destruct (grow_progress _ _ _ _ _ Hcpr Hext Hf Hwb1 Hn64) as (s1 & ok & ev1 & Hgr & He1 & Hnode). rewrite Hgr.
+  destruct ok; [|eexists _, _, _; split; [reflexivity|exact He1]].
+  destruct (grow_refines _ _ _ _ _ _ _ _ Hcpr (defcap_nonneg _ _ Hcpr) Hwb1 Hgr) as (sp1 & Ha1 & Hc1 & Hfe1 & _).
+  destruct (Hnode eq_refl) as (n1 & Hn1 & Hp1). unfold cc_nfree in Hn1. destruct (c_find ns (cc_lists _ s1)) as [g1|] eqn:Hf1; [|discriminate].
+  destruct (take_array_progress _ _ _ bytes _ Hc1 He1 Hf1) as (s2 & res1 & Ht1 & He2). rewrite Ht1.
+  destruct res1 as [x|]; [eexists _, _, _; split; [reflexivity|exact He2]|]. clear Ht1 He2 s2.
+  destruct chdr_eq as (Eh & Eh16 & Emax). rewrite Emax.
+  set (ov := 2 * cc_fence _ s + 16 + ns). set (next := ar_next_block_size (cc_ar _ s1) mod 2 ^ 64).
+  destruct (Z.ltb_spec (if ov <? next then next - ov else 0) bytes) as [Hbad|Hfits]; [eexists _, _, _; split; [reflexivity|exact He1]|].
+  assert (Hns : 0 < ns) by (destruct Hc1 as (_ & HL1 & _); destruct (find_rel _ _ _ _ _ HL1 Hf1) as (l1 & _ & Hgr1 & Eg1); rewrite <- Eg1; exact (GR_pos _ _ Hgr1)).
+  assert (Hb0 : 0 < bytes) by lia.
+  destruct (roundup_facts bytes ns Hns Hb0) as (Hc3 & Hq & Hdiv). cbv zeta in Hc3, Hdiv. set (cap3 := (bytes + ns - 1) / ns * ns) in *.
+  assert (Hnext : ov < next /\ bytes <= next - ov) by (destruct (Z.ltb_spec ov next); lia). destruct Hnext as [Hov Hbn].
+  assert (Hnext64 : next < 2^64) by (unfold next; apply Z.mod_pos_bound; lia).
+  assert (Hfence : 0 <= cc_fence _ s) by apply Hcpr.
+  destruct (Hwb2 s1 ev1 sp1 Hgr Ha1) as [Hwb2' Hn642].
+  destruct (grow_progress_gen s1 sp1 ns g1 cap3 a2 Hc1 He1 Hf1 Hwb2' Hn642) as (s3 & ok2 & ev2 & Hgr2 & He3 & Hnode2).
+  - lia.
+  - unfold cap3. apply gusable_mult; [exact Hns|exact Hq|]. fold cap3. unfold ov in *. lia.
+  - intros Hnf x Hx Hx0. rewrite fs_alloc_none_iff. intros [H0|Hbig]; [lia|].
+    assert (Hcache : ar_cache (cc_ar _ s1) = []) by apply Hc1.
+    assert (Enx : ar_next_block_size (cc_ar _ s1) = ar_next (cc_ar _ s1) - 16) by (unfold ar_next_block_size; rewrite Hcache, Eh16; reflexivity).
+    assert (Hge16 : 16 <= ar_next (cc_ar _ s1)).
+    { assert (Hfr : Fresh s1 sp1) by apply Hc1. destruct Hfr as (b & rest & Hbu & Htb & _). destruct He1 as (_ & _ & _ & _ & _ & Hnx).
+      unfold b_mem, b_end in Htb. destruct (ar_kind (cc_ar _ s1)); [specialize (Hnx b rest Hbu)|contradiction|specialize (Hnx b rest Hbu)]; lia. }
+    assert (Enext : next = ar_next (cc_ar _ s1) - 16) by (unfold next; rewrite Enx; apply Z.mod_small; lia).
+    pose proof (align_off_bounds (x + 16 + cc_fence _ s1) 16 ltac:(lia)) as Hob. rewrite Hfe1 in *. unfold ov in *. lia.
+  - rewrite Hgr2. destruct ok2; [|eexists _, _, _; split; [reflexivity|exact He3]].
+    assert (Hcap0 : 0 <= cap3) by lia.
+    destruct (grow_refines _ _ _ _ _ _ _ _ Hc1 Hcap0 Hwb2' Hgr2) as (sp3 & Ha3 & Hc3' & _).
+    destruct (Hnode2 eq_refl) as ((n3 & Hn3 & Hp3) & (ga & gb & m & rs & l & Hga & Ega & Hins & Hfb)).
+    assert (Hfinal : exists s' x, cc_take_array _ gns gfree gstep s3 ns bytes = Some (s', Some x) /\ Ext s').
+    { unfold cc_take_array. rewrite Hn3. destruct (Z.eqb_spec n3 0); [lia|].
+      assert (Hk : forall (s' : cpool) o r, cc_list_step _ gns gstep s3 ns o = Some (s', r) -> Ext s').
+      { intros s' o r H. destruct (list_step_keys _ _ _ _ _ H) as (K1 & K2 & K3 & K4). apply (ext_same s3); assumption. }
+      destruct (Z.leb_spec bytes ns).
+      - destruct (take_progress _ _ _ _ Hc3' Hn3 Hp3) as (s' & x & Ht). rewrite Ht. exists s', x. split; [reflexivity|].
+        unfold cc_take_node in Ht. destruct (cc_list_step _ gns gstep s3 ns UAlloc) as [[sx [x1|]]|] eqn:Hls; inversion Ht; subst sx x1. exact (Hk _ _ _ Hls).
+      - destruct (gprog_arr_after_ins ga rs l gb m cap3 bytes Hga Hins ltac:(lia)) as (g' & x & Hs).
+        { rewrite Ega, Hdiv. unfold slots_needed. destruct (Z.leb_spec bytes ns); lia. }
+        assert (Hls : cc_list_step _ gns gstep s3 ns (UAllocArr bytes) = Some (cc_with _ s3 (cc_ar _ s3) (cc_top _ s3) (c_set g' (cc_lists _ s3)), Some x)) by (unfold cc_list_step; rewrite Hfb, Hs; reflexivity).
+        rewrite Hls. eexists _, _. split; [reflexivity|exact (Hk _ _ _ Hls)]. }
+    destruct Hfinal as (s' & x & Ht & He'). rewrite Ht. eexists _, _, _. split; [reflexivity|exact He'].
 Qed.
 
 End CollProofs.
